@@ -160,7 +160,9 @@ def majorant(prop, key, x0, g):
     else:
         rho = radius(name, x0f)
     if rho:
-        for k in range(1, len(m)):
+        # derivatives that are algebraic in x and do not involve the function value: chain from g_1
+        start = 2 if name in ("atan", "asinh", "acosh", "asin", "acos", "atanh", "ln", "log", "log2", "log10", "ln_1p") else 1
+        for k in range(start, len(m)):
             m[k] = max(m[k], m[k - 1] / mp.mpf(rho))
     extra = 1
     if name == "powi":
